@@ -184,5 +184,4 @@ def load_generator_module(C, name):
 
 
 def replay(path):
-    print("replay: the replay file holds the specification XML; re-run `./bin/check C18 quick`")
-    return 0
+    return gen_replay(path)
